@@ -42,6 +42,13 @@ def check(repo):
             problems.append({'what': 'tag -> class table differs (entries or ORDER)', 'source': tag_table, 'model': m['tag_table']})
         if ea_table != m['ea_table']:
             problems.append({'what': 'roElementAction table differs', 'source': ea_table, 'model': m['ea_table']})
+    # every class the tables can return defines merge(); the model has exactly these kinds
+    src = ast.parse(open(os.path.join(repo, 'mosromgr', 'mostypes.py'), encoding='utf-8').read())
+    merging = sorted(c.name for c in src.body if isinstance(c, ast.ClassDef)
+                     and any(isinstance(f, ast.FunctionDef) and f.name == 'merge' for f in c.body) and c.name != 'MosFile')
+    model_kinds = sorted({k for _, k in m['tag_table'] if k not in ('RunningOrder', 'ElementAction')} | {e[3] for e in m['ea_table']})
+    if merging != model_kinds:
+        problems.append({'what': 'classes defining merge() differ from the model\'s message kinds', 'source': merging, 'model': model_kinds})
     from mosromgr import exc
     hier = [('MosCompletedMergeError', 'MosMergeError'), ('MosMergeError', 'MosRoMgrException'), ('UnknownMosFileType', 'MosRoMgrException'),
             ('InvalidMosCollection', 'MosRoMgrException'), ('MosInvalidXML', 'MosRoMgrException'),
